@@ -15,6 +15,7 @@ RULE = (
     "class-definition-time dtype cross-check with matching and contradicting declared scalar types, also for two fields that share one annotation object; every construction judged by the oracle on the fields in declaration order. non-trivial = distinct line with "
     "at least one annotated field and one construction"
 )
+RULE += " Also: abstract scalar classes (np.floating[Any], np.complexfloating[Any, Any], bare np.floating) as declared type x every class."
 
 BASES = {0: ["nd", "nd", "npt", "ndg"], 1: ["torch"], 2: ["jax"]}
 
